@@ -176,9 +176,15 @@ def make_dp(rng, n, nchan, trailing, dtype, pol, use_dask, magnitude):
     elif magnitude == "unit":
         x = np.exp(2j * np.pi * rng.random(shape))
     x = x.astype(dtype)
-    sig, desc = gen.make_signal(rng, "DualPolarizationSignal", n, data=x, pol=pol, dask=use_dask,
+    # the basis name as the caller may hold it: a literal, a string built at run time, a NumPy str scalar, or after pickling
+    how = int(rng.integers(5))
+    pol_arg = [pol, "".join(list(pol)), np.str_(pol), pol.upper().lower(), pol][how]
+    sig, desc = gen.make_signal(rng, "DualPolarizationSignal", n, data=x, pol=pol_arg, dask=use_dask,
                                 rate=gen.rand_rate(rng, lo=0, hi=8))
-    desc.update(pol=pol, magnitude=magnitude)
+    if how == 4:
+        import pickle
+        sig = pickle.loads(pickle.dumps(sig))
+    desc.update(pol=pol, magnitude=magnitude, pol_string_kind=["literal", "joined", "np.str_", "upper.lower", "pickled"][how])
     return sig, desc
 
 
